@@ -155,6 +155,8 @@ type Explorer struct {
 	tier   int
 	okSeen int
 	sampleOK bool
+	pcHash   uint64
+	fitCache map[[2]uint64]bool
 }
 
 func NewExplorer(ts *TermStore, sol *Solver, sh *Shared) *Explorer {
@@ -184,7 +186,29 @@ func sanitize(s string) string {
 
 func (e *Explorer) assume(c *Term) {
 	e.pc = append(e.pc, c)
+	e.pcHash = (e.pcHash ^ uint64(c.id+1)) * 1099511628211
 	e.sol.Assert(c)
+}
+
+// implied reports whether the current path condition implies c (one solver query, cached per (pc, c)).
+// "unknown" counts as not implied.
+func (e *Explorer) implied(c *Term) bool {
+	if c.op == "true" {
+		return true
+	}
+	if c.op == "false" {
+		return false
+	}
+	key := [2]uint64{e.pcHash, uint64(c.id)}
+	if r, ok := e.fitCache[key]; ok {
+		return r
+	}
+	if e.fitCache == nil {
+		e.fitCache = map[[2]uint64]bool{}
+	}
+	r := e.sol.CheckWith(e.ts.Op("not", 0, c)) == "unsat"
+	e.fitCache[key] = r
+	return r
 }
 
 // checkWith asks whether pc ∧ c is satisfiable; unsat verdicts are optionally cross-checked.
@@ -398,6 +422,7 @@ func (e *Explorer) runTask(prefix []int, runPath func()) {
 	first := true
 	for {
 		e.depth = 0
+		e.pcHash = 14695981039346656037
 		e.pc = e.pc[:0]
 		e.nondet = e.nondet[:0]
 		e.obs = e.obs[:0]
